@@ -282,6 +282,58 @@ def reaches_call(fb, body, pred, seen=None, depth=0):
     return False
 
 
+def reachable_calls(fb, body, seen=None, depth=0):
+    """every (body, bb, terminator, fn) call site in `body` and the workspace functions it reaches"""
+    seen = seen if seen is not None else set()
+    if body.path in seen or depth > 6:
+        return
+    seen.add(body.path)
+    for bb, t, fn in user_calls(body):
+        if not fn:
+            continue
+        yield body, bb, t, fn
+        nm = mir.callee_name(fn)
+        nb = fb.body(nm) or (fb.body(fn['path']) if fn.get('defkind') == 'Closure' else None)
+        if nb is not None:
+            yield from reachable_calls(fb, nb, seen, depth + 1)
+
+
+_CALLERS = [None, None]
+
+
+def callers_map(fb):
+    """{callee path: set of caller paths} over every crate; a closure counts as called by the function it is written in"""
+    if _CALLERS[0] is fb:
+        return _CALLERS[1]
+    m = {}
+    for b in fb.bodies():
+        if b.defkind == 'Closure' and '::{closure' in b.path:
+            m.setdefault(b.path, set()).add(b.path.split('::{closure')[0])
+        for bb, t, fn in b.calls():
+            if not fn:
+                continue
+            for nm in {mir.callee_name(fn), fn['path']}:
+                if fb.body(nm) is not None and nm != b.path:
+                    m.setdefault(nm, set()).add(b.path)
+    _CALLERS[0], _CALLERS[1] = fb, m
+    return m
+
+
+def only_reached_from(fb, path, roots, _seen=None):
+    """is the function `path` one of `roots`, or a helper every caller chain of which ends in one of them?
+    (a function nobody calls is not: it could be called by anyone)"""
+    if path in roots:
+        return True
+    seen = _seen if _seen is not None else set()
+    if path in seen:
+        return True
+    seen.add(path)
+    cs = callers_map(fb).get(path, set())
+    if not cs:
+        return False
+    return all(only_reached_from(fb, c, roots, seen) for c in cs)
+
+
 def user_calls(body):
     """call sites that are not part of a tracing/log expansion"""
     for bb, t, fn in body.calls():
